@@ -128,10 +128,11 @@ package gossip
 //@   loop 2 frame entries(s.nodes)
 //@   loop 2 invariant[range] rangeindex < len(nodeIDs)
 //@   loop 2 invariant[inv] csInv(s) && wInv(s)
-//@   loop 2 invariant[removed] forall j int :: 0 <= j && j <= rangeindex ==> !(nodeIDs[j] in s.nodes)
-//@   loop 2 invariant[kept] forall id string :: old(id in s.nodes) && !(exists j int :: 0 <= j && j <= rangeindex && nodeIDs[j] == id) ==> id in s.nodes && s.nodes[id] == old(s.nodes[id])
-//@   loop 2 invariant[no-new] forall id string :: id in s.nodes ==> old(id in s.nodes)
-//@   loop 2 invariant[collected] forall j int, id string :: 0 <= j && j < len(nodeIDs) && id == nodeIDs[j] ==> old(id in s.nodes) && old(expired(s, id, t))
+//@   loop 2 invariant[removed] forall j int {nodeIDs[j]} :: 0 <= j && j <= rangeindex ==> !(nodeIDs[j] in s.nodes)
+//@   loop 2 invariant[kept] forall id string {id in s.nodes} :: old(id in s.nodes) && !old(expired(s, id, t)) ==> id in s.nodes && s.nodes[id] == old(s.nodes[id])
+//@   loop 2 invariant[same] forall id string {s.nodes[id]} :: id in s.nodes ==> s.nodes[id] == old(s.nodes[id])
+//@   loop 2 invariant[no-new] forall id string {id in s.nodes} :: id in s.nodes ==> old(id in s.nodes)
+//@   loop 2 invariant[collected] forall j int {nodeIDs[j]} :: 0 <= j && j < len(nodeIDs) ==> old(now(nodeIDs[j]) in s.nodes) && old(expired(s, now(nodeIDs[j]), t))
 //@   loop 2 invariant[complete] forall id string :: old(id in s.nodes) && old(expired(s, id, t)) ==> (exists j int :: 0 <= j && j < len(nodeIDs) && nodeIDs[j] == id)
 
 //@ nonnil Metrics.Entries
